@@ -26,10 +26,12 @@ let out_of (t : int) (text : string) : sys_out list =
 
 (* the class of the recorded C26 / C16 finding, visible on the wire: the gateway has sent REGISTERs with
    different topic IDs for one topic name (a burst of broker messages on a not-yet-registered topic) *)
-type hstate = { em : emon; regs : (string * int) list; two_regs : bool }
-let hinit = { em = emon_init; regs = []; two_regs = false }
+type hstate = { em : emon; em_m : emon (* the same monitor over the MODEL's own outputs *); regs : (string * int) list; two_regs : bool }
+let hinit = { em = emon_init; em_m = emon_init; regs = []; two_regs = false }
 
-let step (cfg : e2e_cfg) (y : sys) (y' : sys) (ev : sys_event) (iouts : (int * string) list) (h : hstate)
+(* failures carry "model=fails" when the composed model fails the same clause in the same step (the
+   situation of a refutation theorem; the only thing a recorded finding may describe), else "model=holds" *)
+let step (cfg : e2e_cfg) (y : sys) (y' : sys) (ev : sys_event) (iouts : (int * string) list) (mouts : sys_out list) (h : hstate)
   : (string * string) list * hstate =
   let os = List.concat_map (fun (t, x) -> out_of t x) iouts in
   let regs = ref h.regs and two = ref h.two_regs in
@@ -43,8 +45,10 @@ let step (cfg : e2e_cfg) (y : sys) (y' : sys) (ev : sys_event) (iouts : (int * s
          | _ -> ())
       | _ -> ()) os;
   let (m', f) = emon_step cfg y y' ev os h.em in
+  let (mm', fm) = emon_step cfg y y' ev mouts h.em_m in
   let st = (match y.y_cl.cl_st with Disconnected -> "disconnected" | Active -> "active" | Asleep -> "asleep" | Awake -> "awake") in
   (List.map (fun (p, c) -> (Printf.sprintf "C%02d" (int_of_n p),
-                            Printf.sprintf "clause%d client=%s%s" (int_of_n c) st
-                              (if !two then " class=two-registers-for-one-name" else ""))) f,
-   { em = m'; regs = !regs; two_regs = !two })
+                            Printf.sprintf "clause%d client=%s%s%s" (int_of_n c) st
+                              (if !two then " class=two-registers-for-one-name" else "")
+                              (if List.mem (p, c) fm then " model=fails" else " model=holds"))) f,
+   { em = m'; em_m = mm'; regs = !regs; two_regs = !two })
